@@ -17,8 +17,6 @@
 package history
 
 import (
-	"fmt"
-
 	"github.com/bbva/qed/balloon/cache"
 	"github.com/bbva/qed/crypto/hashing"
 )
@@ -26,6 +24,10 @@ import (
 type computeHashVisitor struct {
 	hasher hashing.Hasher
 	cache  cache.Cache
+
+	// missing is set when a required element was not found in the cache
+	// (e.g. an audit path that lacks an entry): the computed hash is void.
+	missing bool
 }
 
 func newComputeHashVisitor(hasher hashing.Hasher, cache cache.Cache) *computeHashVisitor {
@@ -52,8 +54,11 @@ func (v *computeHashVisitor) VisitPartialInnerHashOp(op partialInnerHashOp) hash
 
 func (v *computeHashVisitor) VisitGetCacheOp(op getCacheOp) hashing.Digest {
 	hash, ok := v.cache.Get(op.Position().Bytes())
-	if !ok { // TODO maybe we should return an error
-		panic(fmt.Sprintf("Oops, something went wrong. There should be a cached element at position %v", op.Position()))
+	if !ok {
+		// the visitor recomputes hashes from untrusted audit paths:
+		// a missing element invalidates the result instead of panicking
+		v.missing = true
+		return nil
 	}
 	return hash
 }
